@@ -1,12 +1,807 @@
-//! C15: harness module (stub — not built yet)
-#![allow(dead_code, unused_imports, unused_variables)]
+//! C15: calendar-queue memory safety and drop-once.
+//!
+//! Two kinds of cases, both observed through the cfg(petrichorit_des_verif) allocator event log
+//! of des-cqueue (`des_cqueue::verif`):
+//!
+//! `case <id> kind=raw page=<P>` — the page allocator on its own, mixed layouts:
+//!   alloc <tag> <size> <alignlog>   request Layout(size, 2^alignlog); the block is filled with a
+//!                                   tag-derived pattern
+//!   free <tag>                      release the block obtained for <tag> (skipped when not live);
+//!                                   the pattern is verified first
+//!
+//! `case <id> kind=cq ty=<T> dc=<0|1> bits=<b> n=<n> t=<t> page=<P|0>` — a `CQueue<T>`
+//! (`dc=1`: `T` has a destructor that logs its tag; `page=0`: `CQueue::new`, i.e. the OS page size):
+//!   add <delta> <val>    schedule at (time of the last fetched event) + delta, payload made from val
+//!   cancel <val>         cancel the handle of the add that carried <val> (once)
+//!   fetch
+//!   drop                 drop the queue with whatever is pending (always performed at the end)
+//!
+//! Transcript: `new -> …` first and `drop -> …` last are always emitted. Every line carries
+//! `ev=<allocator events>`: `P<k>:<len>:<aligned>:<disjoint>` (k-th page obtained),
+//! `A<k>+<off>:<size>:<align>:<aligned>` (allocate returned page k + off), `E:<size>:<align>`
+//! (allocate failed), `F<k>+<off>:<size>:<align>` (deallocate); `A?…`/`F?…` when the address is in
+//! no page. cq lines also carry `d=<tags dropped during the call, in order>`; payloads are shown
+//! as their tag truncated to `bits` bits, `intact=1` iff every byte of a returned payload is as
+//! inserted.
 use crate::rng::Rng;
 use crate::util::{cases, guarded, hval};
+use des_cqueue::verif::{self, AllocEvent, VerifAllocator};
+use des_cqueue::{CQueue, EventHandle};
+use std::alloc::Layout;
+use std::cell::RefCell;
+use std::fmt::Write;
+use std::time::Duration;
 
-pub fn gen(_seed: u64, _count: usize, _thorough: bool) -> String {
-    String::new()
+// ---------------------------------------------------------------------------------------------
+// allocator event rendering
+
+#[derive(Default)]
+struct Pages {
+    pages: Vec<(usize, usize)>,
+    /// blocks handed out and not yet released: (addr, reserved bytes)
+    live: Vec<(usize, usize)>,
+    /// set when an event breaks a memory-safety clause: the case is stopped before the damage
+    /// spreads (the driver's acceptance checker rejects the same event on its own)
+    violation: bool,
 }
 
-pub fn exec(_input: &str) -> String {
-    String::new()
+impl Pages {
+    fn locate(&self, addr: usize) -> Option<(usize, usize)> {
+        self.pages
+            .iter()
+            .position(|&(b, l)| b <= addr && addr < b + l)
+            .map(|k| (k, addr - self.pages[k].0))
+    }
+
+    /// the allocator's own free list must stay inside the pages, able to hold a ListNode, and
+    /// clear of every live block and of itself; otherwise the next write damages the list and
+    /// the process may hang — stop the case instead
+    fn check_free(&mut self, snap: &verif::AllocSnapshot) {
+        for (i, &(a, sz)) in snap.free.iter().enumerate() {
+            let inside = self.pages.iter().any(|&(b, l)| b <= a && a + sz <= b + l);
+            let clash_live = self.live.iter().any(|&(b, f)| !(a + sz <= b || b + f <= a));
+            let clash_free = snap.free[..i].iter().any(|&(b, f)| !(a + sz <= b || b + f <= a));
+            if !inside || sz < 16 || a % 8 != 0 || clash_live || clash_free {
+                self.violation = true;
+            }
+        }
+    }
+
+    fn render(&mut self, evs: &[AllocEvent]) -> String {
+        if evs.is_empty() {
+            return "-".to_string();
+        }
+        let mut toks = Vec::new();
+        for ev in evs {
+            match *ev {
+                AllocEvent::AddPage { addr, len } => {
+                    let aligned = len != 0 && addr % len == 0;
+                    let disjoint = self.pages.iter().all(|&(b, l)| addr + len <= b || b + l <= addr);
+                    toks.push(format!("P{}:{}:{}:{}", self.pages.len(), len, aligned as u8, disjoint as u8));
+                    self.violation |= !aligned || !disjoint;
+                    self.pages.push((addr, len));
+                }
+                AllocEvent::Allocate { addr, size, align } => {
+                    let al = (align != 0 && addr % align == 0) as u8;
+                    let fp = norm_size(size, align);
+                    let inside = self.pages.iter().any(|&(b, l)| b <= addr && addr + fp <= b + l);
+                    let clash = self.live.iter().any(|&(a, f)| !(addr + fp <= a || a + f <= addr));
+                    self.violation |= !inside || clash || al == 0;
+                    self.live.push((addr, fp));
+                    match self.locate(addr) {
+                        Some((k, off)) => toks.push(format!("A{k}+{off}:{size}:{align}:{al}")),
+                        None => toks.push(format!("A?:{size}:{align}:{al}")),
+                    }
+                }
+                AllocEvent::AllocateFailed { size, align } => toks.push(format!("E:{size}:{align}")),
+                AllocEvent::Deallocate { addr, size, align } => {
+                    match self.live.iter().position(|&(a, f)| a == addr && f == norm_size(size, align)) {
+                        Some(i) => {
+                            self.live.swap_remove(i);
+                        }
+                        None => self.violation = true,
+                    }
+                    match self.locate(addr) {
+                        Some((k, off)) => toks.push(format!("F{k}+{off}:{size}:{align}")),
+                        None => toks.push(format!("F?:{size}:{align}")),
+                    }
+                }
+            }
+        }
+        toks.join(",")
+    }
+}
+
+/// normalised size of a layout, as `size_align` in alloc.rs computes it (used only to refuse
+/// requests for which `find_region` does not terminate)
+fn norm_size(size: usize, align: usize) -> usize {
+    let a = align.max(8);
+    (size.div_ceil(a) * a).max(16)
+}
+
+/// `find_region` recurses forever for these (each round leaves 1..15 bytes behind the block)
+fn diverges(nsize: usize, page: usize) -> bool {
+    nsize < page && nsize + 16 > page
+}
+
+// ---------------------------------------------------------------------------------------------
+// payload types
+
+thread_local! {
+    static DROPS: RefCell<Vec<u64>> = const { RefCell::new(Vec::new()) };
+}
+
+fn take_drops() -> Vec<u64> {
+    DROPS.with(|d| std::mem::take(&mut *d.borrow_mut()))
+}
+
+trait Pay: Sized {
+    const BITS: u32;
+    fn make(tag: u64) -> Self;
+    /// the tag, if every byte is as `make` produced it
+    fn tag(&self) -> Option<u64>;
+}
+
+fn trunc(tag: u64, bits: u32) -> u64 {
+    if bits >= 64 {
+        tag
+    } else {
+        tag & ((1u64 << bits) - 1)
+    }
+}
+
+impl Pay for u8 {
+    const BITS: u32 = 8;
+    fn make(tag: u64) -> Self {
+        tag as u8
+    }
+    fn tag(&self) -> Option<u64> {
+        Some(*self as u64)
+    }
+}
+impl Pay for [u8; 3] {
+    const BITS: u32 = 24;
+    fn make(tag: u64) -> Self {
+        [tag as u8, (tag >> 8) as u8, (tag >> 16) as u8]
+    }
+    fn tag(&self) -> Option<u64> {
+        Some(self[0] as u64 | (self[1] as u64) << 8 | (self[2] as u64) << 16)
+    }
+}
+impl Pay for u64 {
+    const BITS: u32 = 64;
+    fn make(tag: u64) -> Self {
+        tag
+    }
+    fn tag(&self) -> Option<u64> {
+        Some(*self)
+    }
+}
+impl Pay for u128 {
+    const BITS: u32 = 64;
+    fn make(tag: u64) -> Self {
+        (tag as u128) | ((!tag as u128) << 64)
+    }
+    fn tag(&self) -> Option<u64> {
+        let lo = *self as u64;
+        if (*self >> 64) as u64 == !lo {
+            Some(lo)
+        } else {
+            None
+        }
+    }
+}
+impl Pay for [u64; 32] {
+    const BITS: u32 = 64;
+    fn make(tag: u64) -> Self {
+        let mut a = [0u64; 32];
+        for (i, x) in a.iter_mut().enumerate() {
+            *x = tag ^ (i as u64).wrapping_mul(0x9E37_79B9_7F4A_7C15);
+        }
+        a
+    }
+    fn tag(&self) -> Option<u64> {
+        let tag = self[0];
+        if *self == Self::make(tag) {
+            Some(tag)
+        } else {
+            None
+        }
+    }
+}
+impl Pay for [u8; 2000] {
+    const BITS: u32 = 64;
+    fn make(tag: u64) -> Self {
+        let mut a = [0u8; 2000];
+        a[..8].copy_from_slice(&tag.to_le_bytes());
+        for (i, x) in a.iter_mut().enumerate().skip(8) {
+            *x = (tag.wrapping_mul(31).wrapping_add(i as u64) % 251) as u8;
+        }
+        a
+    }
+    fn tag(&self) -> Option<u64> {
+        let tag = u64::from_le_bytes(self[..8].try_into().unwrap());
+        if self[..] == Self::make(tag)[..] {
+            Some(tag)
+        } else {
+            None
+        }
+    }
+}
+
+/// same layout as `T`, with a destructor that logs the tag (u64::MAX when the bytes are damaged)
+#[repr(transparent)]
+struct D<T: Pay>(T);
+impl<T: Pay> Drop for D<T> {
+    fn drop(&mut self) {
+        let t = self.0.tag().unwrap_or(u64::MAX);
+        let _ = DROPS.try_with(|d| d.borrow_mut().push(t));
+    }
+}
+impl<T: Pay> Pay for D<T> {
+    const BITS: u32 = T::BITS;
+    fn make(tag: u64) -> Self {
+        D(T::make(tag))
+    }
+    fn tag(&self) -> Option<u64> {
+        self.0.tag()
+    }
+}
+
+const TYPES: [&str; 6] = ["u8", "u8x3", "u64", "u128", "u64x32", "u8x2000"];
+
+fn node_layout(ty: &str) -> (usize, usize) {
+    match ty {
+        "u8" => CQueue::<u8>::verif_node_layout(),
+        "u8x3" => CQueue::<[u8; 3]>::verif_node_layout(),
+        "u64" => CQueue::<u64>::verif_node_layout(),
+        "u128" => CQueue::<u128>::verif_node_layout(),
+        "u64x32" => CQueue::<[u64; 32]>::verif_node_layout(),
+        _ => CQueue::<[u8; 2000]>::verif_node_layout(),
+    }
+}
+
+fn bits_of(ty: &str) -> u32 {
+    match ty {
+        "u8" => 8,
+        "u8x3" => 24,
+        _ => 64,
+    }
+}
+
+// ---------------------------------------------------------------------------------------------
+// generator
+
+const NS: [u64; 6] = [1, 2, 3, 4, 7, 32];
+const TS: [u64; 4] = [1, 3, 1_000, 2_500_000];
+
+fn delta(r: &mut Rng, n: u64, t: u64) -> i128 {
+    let year = n as i128 * t as i128;
+    let t = t as i128;
+    match r.below(14) {
+        0 | 1 => 0,
+        2 => r.below(3) as i128 * t,
+        3 => (r.below(4) as i128) * (if t > 4 { t / 4 } else { 1 }),
+        4 => year * r.range(1, 2) as i128,
+        5 => r.below(4) as i128,
+        6 => year + r.below(3) as i128 - 1,
+        7 => t * r.range(1, 3) as i128 - 1,
+        8 => t * r.range(1, 3) as i128 + 1,
+        9 | 10 => t * r.below(2 * n + 3) as i128,
+        11 => (r.below(1000) as i128) * t / 7,
+        12 => -(r.range(1, 3) as i128) * (if r.chance(1, 2) { 1 } else { t }),
+        _ => t + r.below(t.max(1) as u64) as i128,
+    }
+}
+
+fn gen_raw(r: &mut Rng, out: &mut String, id: usize, thorough: bool) {
+    let plog = *r.pick(&[8u32, 8, 8, 9, 9, 10, 12, 12, 14, 16]);
+    let page = 1usize << plog;
+    writeln!(out, "case {id} kind=raw page={page}").unwrap();
+    let len = if thorough { r.range(20, 600) } else { r.range(10, 160) };
+    // a few size classes per case make exact reuse, splits and abandoned tails all frequent
+    let ncls = r.range(1, 5) as usize;
+    let mut classes: Vec<(usize, u32)> = Vec::new();
+    for _ in 0..ncls {
+        let alog = *r.pick(&[0u32, 0, 1, 2, 3, 3, 3, 4, 4, 5, 6, 7]);
+        let size = match r.below(10) {
+            0 => r.below(17) as usize,                          // 0..16: the ListNode minimum
+            1 | 2 | 3 => r.range(1, 96) as usize,
+            4 | 5 => r.range(1, (page / 4) as u64) as usize,
+            6 => r.range((page / 4) as u64, (page / 2) as u64) as usize,
+            7 => page - 16 - r.below(24) as usize,              // around the largest size that fits
+            8 => page,                                          // exactly one page
+            _ => page + r.range(1, 64) as usize,                // larger than a page: Err(())
+        };
+        classes.push((size, alog));
+    }
+    let mut live: Vec<u64> = Vec::new();
+    let mut tag = 0u64;
+    for i in 0..len {
+        let phase = (3 * i) / len;
+        let p_alloc = match phase {
+            0 => 7,
+            1 => 5,
+            _ => 3,
+        };
+        if live.is_empty() || r.below(10) < p_alloc {
+            let (mut size, mut alog) = *r.pick(&classes);
+            if r.chance(1, 8) {
+                size = r.range(0, 200) as usize;
+                alog = r.below(6) as u32;
+            }
+            // outside the stated range: find_region would never return
+            if diverges(norm_size(size, 1 << alog), page) {
+                size = page - 16;
+                if diverges(norm_size(size, 1 << alog), page) {
+                    size = 8;
+                }
+            }
+            tag += 1;
+            writeln!(out, "alloc {tag} {size} {alog}").unwrap();
+            if norm_size(size, 1 << alog) <= page {
+                live.push(tag);
+            }
+        } else {
+            // free: newest, oldest or random
+            let k = match r.below(3) {
+                0 => live.len() - 1,
+                1 => 0,
+                _ => r.below(live.len() as u64) as usize,
+            };
+            let t = live.remove(k);
+            writeln!(out, "free {t}").unwrap();
+        }
+    }
+    if r.chance(1, 2) {
+        for t in live.drain(..) {
+            writeln!(out, "free {t}").unwrap();
+        }
+    }
+    if r.chance(1, 15) {
+        // outside the stated range on purpose: normalised size page-8 (the observer's page limit
+        // stops the runaway; the model must say `diverged`)
+        writeln!(out, "alloc {} {} {}", tag + 1, page - 8 - r.below(8) as usize, r.below(4)).unwrap();
+    }
+    writeln!(out, "end").unwrap();
+}
+
+fn gen_cq(r: &mut Rng, out: &mut String, id: usize, thorough: bool) {
+    let ty = *r.pick(&TYPES);
+    let dc = r.chance(1, 2) as u8;
+    let (nsz, nal) = node_layout(ty);
+    let nsize = norm_size(nsz, nal);
+    let n = *r.pick(&NS);
+    let t = *r.pick(&TS);
+    // page sizes 256 … 65536 through the hook, or the OS page size through CQueue::new
+    let mut page: usize = if r.chance(1, 5) {
+        0
+    } else {
+        1usize << *r.pick(&[8u32, 8, 9, 9, 10, 10, 11, 12, 13, 14, 16])
+    };
+    let too_small = r.chance(1, 60);
+    let window = (8..=16).map(|k| 1usize << k).find(|p| diverges(nsize, *p));
+    if page != 0 {
+        if too_small {
+            while page >= nsize && page > 16 {
+                page /= 2;
+            }
+        } else {
+            while page < nsize || diverges(nsize, page) {
+                page *= 2;
+            }
+        }
+    }
+    if ty == "u64" && r.chance(1, 12) {
+        // EventNode<u64> is 56 bytes = 64 - 8: on 64-byte pages CQueue::new never returns
+        page = 64;
+    } else if let (Some(p), true) = (window, r.chance(1, 12)) {
+        page = p;
+    }
+    writeln!(out, "case {id} kind=cq ty={ty} dc={dc} bits={} n={n} t={t} page={page}", bits_of(ty)).unwrap();
+    let big = nsize > 1000;
+    let len = if thorough { r.range(20, 900) } else if big { r.range(10, 120) } else { r.range(10, 260) };
+    let mut adds = 0u64;
+    let mut val = 0u64;
+    let mut vals: Vec<u64> = Vec::new();
+    for i in 0..len {
+        let phase = (4 * i) / len;
+        let w = match phase {
+            0 => (7, 1, 2),
+            1 => (3, 2, 6),
+            2 => (6, 2, 3),
+            _ => (2, 1, 6),
+        };
+        let x = r.below(w.0 + w.1 + w.2);
+        if x < w.0 {
+            val += 1;
+            writeln!(out, "add {} {}", delta(r, n, t), val).unwrap();
+            vals.push(val);
+            adds += 1;
+        } else if x < w.0 + w.1 {
+            if adds > 0 {
+                let k = if r.chance(2, 3) { adds - 1 - r.below(adds.min(6)) } else { r.below(adds) };
+                writeln!(out, "cancel {}", vals[k as usize]).unwrap();
+            }
+        } else {
+            writeln!(out, "fetch").unwrap();
+        }
+    }
+    // most cases are dropped with events still pending; some are drained first
+    if r.chance(1, 4) {
+        for _ in 0..(adds + 1) {
+            writeln!(out, "fetch").unwrap();
+        }
+    }
+    writeln!(out, "drop").unwrap();
+    writeln!(out, "end").unwrap();
+}
+
+pub fn gen(seed: u64, count: usize, thorough: bool) -> String {
+    let mut r = Rng::new(seed);
+    let mut out = String::new();
+    for k in 0..count {
+        if r.chance(2, 5) {
+            gen_raw(&mut r, &mut out, k, thorough);
+        } else {
+            gen_cq(&mut r, &mut out, k, thorough);
+        }
+    }
+    out
+}
+
+// ---------------------------------------------------------------------------------------------
+// executor
+
+fn fill_byte(tag: u64, i: usize) -> u8 {
+    (tag.wrapping_mul(131).wrapping_add(i as u64 * 7) % 253) as u8
+}
+
+fn exec_raw(header: &str, body: &[String], out: &mut String) {
+    let page: usize = hval(header, "page").and_then(|v| v.parse().ok()).unwrap_or(4096);
+    writeln!(out, "{header}").unwrap();
+    if !page.is_power_of_two() || page < 16 {
+        writeln!(out, "new -> refused").unwrap();
+        writeln!(out, "end").unwrap();
+        return;
+    }
+    let mut pages = Pages::default();
+    verif::observe_start();
+    let mut a = VerifAllocator::with_page_size(page);
+    writeln!(out, "new -> ok ev={}", pages.render(&verif::observe_take())).unwrap();
+    // tag -> (addr, size, align)
+    let mut live: Vec<(u64, usize, Layout)> = Vec::new();
+    let mut runaway = false;
+    for line in body {
+        let tok: Vec<&str> = line.split_whitespace().collect();
+        match tok.as_slice() {
+            ["alloc", tag, size, alog] => {
+                let (Ok(tag), Ok(size), Ok(alog)) = (tag.parse::<u64>(), size.parse::<usize>(), alog.parse::<u32>()) else { continue };
+                if alog > 20 || size > (1 << 24) || live.iter().any(|l| l.0 == tag) {
+                    continue;
+                }
+                let layout = Layout::from_size_align(size, 1 << alog).unwrap();
+                if (1usize << alog) > page {
+                    // whether such a request is ever served depends on the page's address
+                    writeln!(out, "alloc {tag} {size} {alog} -> refused").unwrap();
+                    continue;
+                }
+                let res = guarded(|| a.allocate(layout));
+                let evs = pages.render(&verif::observe_take());
+                if matches!(&res, Err(m) if m.contains(verif::PAGE_LIMIT_MSG)) {
+                    // find_region kept adding pages: stopped by the observer's page limit
+                    writeln!(out, "alloc {tag} {size} {alog} -> runaway ev={evs}").unwrap();
+                    runaway = true;
+                    break;
+                }
+                if !pages.violation {
+                    pages.check_free(&a.snapshot());
+                }
+                if pages.violation {
+                    // do not touch the block: report and stop the case
+                    writeln!(out, "alloc {tag} {size} {alog} -> {} ev={evs}", if matches!(res, Ok(Some(_))) { "ok" } else { "err" }).unwrap();
+                    break;
+                }
+                match res {
+                    Ok(Some(addr)) => {
+                        // the caller owns [addr, addr+size): fill it
+                        for i in 0..size {
+                            unsafe { ((addr + i) as *mut u8).write_volatile(fill_byte(tag, i)) };
+                        }
+                        live.push((tag, addr, layout));
+                        writeln!(out, "alloc {tag} {size} {alog} -> ok ev={evs}").unwrap();
+                    }
+                    Ok(None) => writeln!(out, "alloc {tag} {size} {alog} -> err ev={evs}").unwrap(),
+                    Err(_) => writeln!(out, "alloc {tag} {size} {alog} -> panic ev={evs}").unwrap(),
+                }
+            }
+            ["free", tag] => {
+                let Ok(tag) = tag.parse::<u64>() else { continue };
+                let Some(k) = live.iter().position(|l| l.0 == tag) else { continue };
+                let (_, addr, layout) = live.remove(k);
+                let mut intact = true;
+                for i in 0..layout.size() {
+                    if unsafe { ((addr + i) as *const u8).read_volatile() } != fill_byte(tag, i) {
+                        intact = false;
+                    }
+                }
+                let res = guarded(|| unsafe { a.deallocate(addr, layout) });
+                let evs = pages.render(&verif::observe_take());
+                if !pages.violation {
+                    pages.check_free(&a.snapshot());
+                }
+                writeln!(
+                    out,
+                    "free {tag} -> {} intact={} ev={evs}",
+                    if res.is_ok() { "ok" } else { "panic" },
+                    intact as u8
+                )
+                .unwrap();
+                if pages.violation {
+                    break;
+                }
+            }
+            _ => continue,
+        }
+    }
+    if runaway {
+        // the case ends here (the model has no successor state for a call that never returns)
+        verif::observe_stop();
+        drop(a);
+        writeln!(out, "end").unwrap();
+        return;
+    }
+    if pages.violation {
+        // leave the allocator alone (its bookkeeping may be damaged); the pages are leaked
+        verif::observe_stop();
+        std::mem::forget(a);
+        writeln!(out, "abort -> harness-guard").unwrap();
+        writeln!(out, "end").unwrap();
+        return;
+    }
+    // blocks still live must be undamaged at the end as well
+    let mut intact = true;
+    for (tag, addr, layout) in &live {
+        for i in 0..layout.size() {
+            if unsafe { ((addr + i) as *const u8).read_volatile() } != fill_byte(*tag, i) {
+                intact = false;
+            }
+        }
+    }
+    let snap = a.snapshot();
+    let res = guarded(move || drop(a));
+    let evs = pages.render(&verif::observe_take());
+    verif::observe_stop();
+    writeln!(
+        out,
+        "drop -> {} intact={} mem={} npages={} ev={evs}",
+        if res.is_ok() { "ok" } else { "panic" },
+        intact as u8,
+        snap.allocated_mem,
+        snap.pages.len()
+    )
+    .unwrap();
+    writeln!(out, "end").unwrap();
+}
+
+fn list(v: &[u64], bits: u32) -> String {
+    if v.is_empty() {
+        "-".to_string()
+    } else {
+        v.iter().map(|x| if *x == u64::MAX { "X".to_string() } else { trunc(*x, bits).to_string() }).collect::<Vec<_>>().join(",")
+    }
+}
+
+fn exec_cq<T: Pay>(header: &str, body: &[String], out: &mut String) {
+    let n: usize = hval(header, "n").and_then(|v| v.parse().ok()).unwrap_or(1).max(1);
+    let t: u64 = hval(header, "t").and_then(|v| v.parse().ok()).unwrap_or(1).max(1);
+    let page: usize = hval(header, "page").and_then(|v| v.parse().ok()).unwrap_or(0);
+    let dc = hval(header, "dc").map(|v| v == "1").unwrap_or(false);
+    writeln!(out, "{header}").unwrap();
+    let bits = T::BITS;
+    let (nsz, nal) = CQueue::<T>::verif_node_layout();
+    let psz = if page == 0 { 4096usize.max(page_size_of_os()) } else { page };
+    if !psz.is_power_of_two() || psz < 16 || nal > psz {
+        writeln!(out, "new -> refused nsize={nsz} nalign={nal} psz={psz}").unwrap();
+        writeln!(out, "end").unwrap();
+        return;
+    }
+    let mut pages = Pages::default();
+    take_drops();
+    verif::observe_start();
+    let q = guarded(|| {
+        if page == 0 {
+            CQueue::<T>::new(n, Duration::from_nanos(t))
+        } else {
+            CQueue::<T>::verif_with_page_size(n, Duration::from_nanos(t), page)
+        }
+    });
+    let evs = pages.render(&verif::observe_take());
+    let mut q = match q {
+        Ok(q) if pages.violation => {
+            writeln!(out, "new -> ok nsize={nsz} nalign={nal} psz={psz} ev={evs}").unwrap();
+            verif::observe_stop();
+            std::mem::forget(q);
+            writeln!(out, "abort -> harness-guard").unwrap();
+            writeln!(out, "end").unwrap();
+            return;
+        }
+        Ok(q) => {
+            let psz = q.verif_snapshot().alloc.page_size;
+            writeln!(out, "new -> ok nsize={nsz} nalign={nal} psz={psz} ev={evs}").unwrap();
+            q
+        }
+        Err(m) => {
+            let what = if m.contains(verif::PAGE_LIMIT_MSG) { "runaway" } else { "panic" };
+            writeln!(out, "new -> {what} nsize={nsz} nalign={nal} psz={psz} ev={evs}").unwrap();
+            verif::observe_stop();
+            writeln!(out, "end").unwrap();
+            return;
+        }
+    };
+    // payload accounting over the whole case: (truncated tag, created, dropped)
+    let mut created: Vec<u64> = Vec::new();
+    let mut dropped: Vec<u64> = Vec::new();
+    let mut handles: Vec<(u64, Option<EventHandle<T>>)> = Vec::new();
+    let mut cur: i128 = 0;
+    for line in body {
+        let tok: Vec<&str> = line.split_whitespace().collect();
+        let mut res = String::new();
+        match tok.as_slice() {
+            ["add", d, v] => {
+                let d: i128 = d.parse().unwrap_or(0);
+                let v: u64 = v.parse().unwrap_or(0);
+                let abs = (cur + d).max(0) as u64;
+                let payload = T::make(v);
+                created.push(trunc(v, bits));
+                match guarded(|| q.add(Duration::from_nanos(abs), payload)) {
+                    Ok(h) => {
+                        handles.push((v, Some(h)));
+                        write!(res, "add {abs} {v} -> ok").unwrap();
+                    }
+                    Err(_) => write!(res, "add {abs} {v} -> panic").unwrap(),
+                }
+            }
+            ["cancel", v] => {
+                let v: u64 = v.parse().unwrap_or(u64::MAX);
+                let Some(k) = handles.iter().position(|h| h.0 == v) else { continue };
+                match handles.get_mut(k).and_then(|h| h.1.take()) {
+                    Some(h) => match guarded(|| q.cancel(h)) {
+                        Ok(()) => write!(res, "cancel {k} -> ok").unwrap(),
+                        Err(_) => write!(res, "cancel {k} -> panic").unwrap(),
+                    },
+                    None => continue,
+                }
+            }
+            ["fetch"] => match guarded(|| q.fetch_next()) {
+                Ok((p, time)) => {
+                    cur = time.as_nanos() as i128;
+                    let during = take_drops();
+                    let tag = p.tag();
+                    write!(
+                        res,
+                        "fetch -> {}@{} intact={}",
+                        tag.map(|x| trunc(x, bits).to_string()).unwrap_or("X".into()),
+                        time.as_nanos(),
+                        tag.is_some() as u8
+                    )
+                    .unwrap();
+                    // the caller drops what it was given (counted, not part of the call)
+                    drop(p);
+                    dropped.extend(take_drops().iter().map(|x| trunc(*x, bits)));
+                    DROPS.with(|d| *d.borrow_mut() = during);
+                }
+                Err(_) => write!(res, "fetch -> panic").unwrap(),
+            },
+            _ => continue,
+        }
+        let d = take_drops();
+        dropped.extend(d.iter().map(|x| trunc(*x, bits)));
+        let evs = pages.render(&verif::observe_take());
+        if !pages.violation && evs != "-" {
+            pages.check_free(&q.verif_snapshot().alloc);
+        }
+        writeln!(
+            out,
+            "{res} len={} time={} empty={} d={} ev={evs}",
+            q.len(),
+            q.time().as_nanos(),
+            q.is_empty() as u8,
+            list(&d, bits)
+        )
+        .unwrap();
+        if pages.violation {
+            break;
+        }
+    }
+    if pages.violation {
+        // the node memory is no longer trustworthy: do not run the queue's destructor
+        verif::observe_stop();
+        std::mem::forget(q);
+        writeln!(out, "abort -> harness-guard").unwrap();
+        writeln!(out, "end").unwrap();
+        return;
+    }
+    let snap = q.verif_snapshot();
+    let r = guarded(move || drop(q));
+    let d = take_drops();
+    dropped.extend(d.iter().map(|x| trunc(*x, bits)));
+    let evs = pages.render(&verif::observe_take());
+    verif::observe_stop();
+    // every payload created must have been dropped exactly once by now
+    let mut bad = Vec::new();
+    if dc {
+        let mut c = created.clone();
+        c.sort_unstable();
+        let mut dd = dropped.clone();
+        dd.sort_unstable();
+        let mut keys = c.clone();
+        keys.extend(dd.iter());
+        keys.sort_unstable();
+        keys.dedup();
+        for k in keys {
+            let a = c.iter().filter(|x| **x == k).count();
+            let b = dd.iter().filter(|x| **x == k).count();
+            if a != b {
+                bad.push(format!("{k}:{a}:{b}"));
+            }
+        }
+    }
+    writeln!(
+        out,
+        "drop -> {} mem={} npages={} d={} bad={} ev={evs}",
+        if r.is_ok() { "ok" } else { "panic" },
+        snap.alloc.allocated_mem,
+        snap.alloc.pages.len(),
+        list(&d, bits),
+        if bad.is_empty() { "-".to_string() } else { bad.join(",") }
+    )
+    .unwrap();
+    writeln!(out, "end").unwrap();
+}
+
+fn page_size_of_os() -> usize {
+    // CQueue::new asks `page_size::get()`; the harness learns the value from the first AddPage
+    // event, this is only the default used to refuse diverging configurations
+    4096
+}
+
+pub fn exec(input: &str) -> String {
+    let mut out = String::new();
+    // a find_region that does not terminate is cut off after this many fresh pages in one call
+    verif::set_page_limit(6);
+    for (header, body) in cases(input) {
+        let body: Vec<String> = body
+            .into_iter()
+            .filter(|l| !(l.starts_with("new") || l.starts_with("drop") || l.starts_with("abort")))
+            .collect();
+        match hval(&header, "kind").as_deref() {
+            Some("raw") => exec_raw(&header, &body, &mut out),
+            Some("cq") => {
+                let dc = hval(&header, "dc").map(|v| v == "1").unwrap_or(false);
+                let ty = hval(&header, "ty").unwrap_or_default();
+                match (ty.as_str(), dc) {
+                    ("u8", false) => exec_cq::<u8>(&header, &body, &mut out),
+                    ("u8", true) => exec_cq::<D<u8>>(&header, &body, &mut out),
+                    ("u8x3", false) => exec_cq::<[u8; 3]>(&header, &body, &mut out),
+                    ("u8x3", true) => exec_cq::<D<[u8; 3]>>(&header, &body, &mut out),
+                    ("u64", false) => exec_cq::<u64>(&header, &body, &mut out),
+                    ("u64", true) => exec_cq::<D<u64>>(&header, &body, &mut out),
+                    ("u128", false) => exec_cq::<u128>(&header, &body, &mut out),
+                    ("u128", true) => exec_cq::<D<u128>>(&header, &body, &mut out),
+                    ("u64x32", false) => exec_cq::<[u64; 32]>(&header, &body, &mut out),
+                    ("u64x32", true) => exec_cq::<D<[u64; 32]>>(&header, &body, &mut out),
+                    ("u8x2000", false) => exec_cq::<[u8; 2000]>(&header, &body, &mut out),
+                    ("u8x2000", true) => exec_cq::<D<[u8; 2000]>>(&header, &body, &mut out),
+                    _ => {
+                        writeln!(out, "{header}\nnew -> refused\nend").unwrap();
+                    }
+                }
+            }
+            _ => {
+                writeln!(out, "{header}\nnew -> refused\nend").unwrap();
+            }
+        }
+    }
+    out
 }
